@@ -223,7 +223,9 @@ class NaiveLinear(Linear):
             D = num of features
         """
         # If both weight inverse and logabsdet are needed, it's cheaper to compute both together.
-        identity = torch.eye(self.features, self.features)
+        identity = torch.eye(
+            self.features, dtype=self._weight.dtype, device=self._weight.device
+        )
         # LU-decompose the weights and solve for the outputs.
         lu, lu_pivots = torch.lu(self._weight)
         weight_inv = torch.lu_solve(identity, lu, lu_pivots)
